@@ -28,7 +28,7 @@ CLASSES = ("depend", "bdepend", "rdepend", "idepend", "pdepend")
 KINDS = ("upgrade", "min", "empty")
 VERS = ("1", "2", "3", "1.5", "2-r1", "3_rc1", "0.9")
 SLOTS = ("0", "0", "0", "1", "2")
-TIMEOUT_S = 3
+TIMEOUT_S = 2
 
 
 class Hang(BaseException):
@@ -582,7 +582,7 @@ def main(chk: Check):
     chk.lint(["C15"])
     chk.check_fingerprint(ANCHORS)
 
-    scns = corpus_scenarios() + run_stream(chk, chk.n(900, 15000)) + run_stream(chk, chk.n(100, 2000), big=True)
+    scns = corpus_scenarios() + run_stream(chk, chk.n(650, 15000)) + run_stream(chk, chk.n(70, 2000), big=True)
     cases, worlds = [], []
     stats = {"ok": 0, "fail": 0, "crash": 0}
     prop_bad = []          # unclassified property failures (violations)
